@@ -579,6 +579,10 @@ func (bp *baseProcessor) checkHeaderBodyCorrelation(miniBlockHeaders []block.Min
 		if mbHdr.SenderShardID != miniBlock.SenderShardID {
 			return process.ErrHeaderBodyMismatch
 		}
+
+		if mbHdr.Type != miniBlock.Type {
+			return process.ErrHeaderBodyMismatch
+		}
 	}
 
 	return nil
